@@ -345,6 +345,50 @@ pub fn description_states(thorough: bool, seeds: u64) -> (Vec<String>, Vec<(Stri
         }
     }
     info.push(("D-rec(recursive enum with k<=3 self references in one variant, reached r<=3 times, via Box/Vec/Option<Box>)".into(), rec, rec, true));
+    // D-samename: two definitions with one identifier in different modules (anything remembered per name
+    // instead of per id / full path confuses them), every ordered pair of six bodies, both visited from one root
+    let mut same = 0u64;
+    {
+        let bodies: Vec<(Vec<&str>, Body)> = vec![
+            (vec!["T"], Body::Struct(named(vec![("weight", Ty::Param(0))]))),
+            (vec!["T"], Body::Struct(named(vec![("weight", U32), ("m", Ty::Phantom(b(Ty::Param(0))))]))),
+            (vec![], Body::Struct(named(vec![("weight", U8)]))),
+            (vec!["T"], Body::Enum(vec![variant("A", Fields::Unnamed(vec![Field::new(Ty::Param(0))])), variant("B", Fields::Unit)])),
+            (vec!["T"], Body::Struct(unnamed(vec![Ty::Param(0)]))),
+            (vec!["T", "U"], Body::Struct(named(vec![("a", Ty::Param(0)), ("m", Ty::Phantom(b(Ty::Param(1))))]))),
+        ];
+        let args = |n: usize| -> Vec<Ty> { [U8, U16][..n].to_vec() };
+        for (i, (pa, ba)) in bodies.iter().enumerate() {
+            for (j, (pb, bb)) in bodies.iter().enumerate() {
+                if i == j {
+                    continue;
+                }
+                let mk = |module: &str, params: &Vec<&str>, body: &Body| Def {
+                    body: body.clone(),
+                    ..Def::strukt(&["g", module], "Slot", params, Fields::Unit)
+                };
+                let left = mk("left", pa, ba);
+                let right = mk("right", pb, bb);
+                let host = Def::strukt(
+                    &["g", "h"],
+                    "R",
+                    &[],
+                    named(vec![
+                        ("first", Ty::Named(0, args(pa.len()))),
+                        ("second", Ty::Named(1, args(pb.len()))),
+                        ("again", Ty::Vec(b(Ty::Named(0, args(pa.len()))))),
+                    ]),
+                );
+                let prog = Program {
+                    defs: vec![left, right, host],
+                    roots: vec![Ty::Named(2, vec![])],
+                };
+                states.push(js(json!({"prog": serde_json::to_value(prog).unwrap(), "seeds": seeds})));
+                same += 1;
+            }
+        }
+    }
+    info.push(("D-samename(two definitions named alike in different modules, all ordered pairs of 6 bodies)".into(), same, same, true));
     // D-width: many draws of every integer kind per seed ([[p; 32]; 32])
     let mut width = 0u64;
     for p in Prim::INTS {
